@@ -20,13 +20,15 @@ LETTER_FIRST = re.compile(r"^[A-Za-z][A-Za-z0-9_]*$")
 TESTS = {
     "gross_range_test": dict(fail_span=[0, 8], suspect_span=[0, 4]),
     "spike_test": dict(suspect_threshold=1, fail_threshold=5),
+    "valid_range_test": dict(valid_span=[1.5, 8.5]),
 }
+MODULE = {"gross_range_test": "qartod", "spike_test": "qartod", "valid_range_test": "axds"}
 CTX_KINDS = ("none", "partial", "two")
 CHARS = ("a", "Z", "0", "9", "_", ".", " ", "-", "é")
 
 META = dict(
     rule="runs: PandasStream over a 4-row table (5 thorough) for every set of 1-2 stream ids from {v1, 2x, 'a b', t.emp, "
-         "_u, e-acute} x every non-empty subset of {gross_range, spike} x contexts {no window, one partial window, two "
+         "_u, e-acute} x test sets over {qartod.gross_range, qartod.spike, axds.valid_range} x contexts {no window, one partial window, two "
          "disjoint windows}; for every run EVERY save variant: write_data x write_axes, include / exclude in {None} + "
          "every list of <=2 items over {the stream ids, the test names, the test functions} (one of them at a time, "
          "plus every single-item include x single-item exclude pair), with and without compute_aggregate. Oracle: one "
@@ -61,7 +63,9 @@ def build_store(case):
         srcs[sid] = np.array(S.V[:n] if k == 0 else S.W[:n], dtype="float64")
         cols[sid] = srcs[sid]
     df = pd.DataFrame(cols)
-    mods = {"qartod": {t: TESTS[t] for t in case["tests"]}}
+    mods = {}
+    for t in case["tests"]:
+        mods.setdefault(MODULE[t], {})[t] = TESTS[t]
     streams = {sid: mods for sid in case["streams"]}
     if case["ctx"] == "none":
         ctxs = [dict(streams=streams)]
@@ -77,10 +81,10 @@ def build_store(case):
 
 
 def item_of(tok):
-    from ioos_qc import qartod
+    import importlib
 
     if tok.startswith("fn:"):
-        return getattr(qartod, tok[3:])
+        return getattr(importlib.import_module("ioos_qc." + MODULE[tok[3:]]), tok[3:])
     return tok
 
 
@@ -131,8 +135,8 @@ def check_case(case):
             continue
         used = set()
         for (sid, test), flags in exp_results.items():
-            core = safe_core(f"{sid}_qartod_{test}")
-            exact = f"{sid}_qartod_{test}"
+            core = safe_core(f"{sid}_{MODULE[test]}_{test}")
+            exact = f"{sid}_{MODULE[test]}_{test}"
             cands = [c for c in cols if c == core or (c.endswith(core) and CF.match(c))]
             if LETTER_FIRST.match(exact):
                 cands = [c for c in cols if c == exact]
@@ -155,10 +159,10 @@ def check_case(case):
         # no column for a filtered-out result
         for (sid, test) in collected:
             if (sid, test) not in exp_results:
-                core = safe_core(f"{sid}_qartod_{test}")
+                core = safe_core(f"{sid}_{MODULE[test]}_{test}")
                 if any(c.endswith(core) for c in other):
                     vs.append(V(f"{PROP}|save|{fsig}|symptom=filtered-result-present", f"result ({sid}, {test}) should be filtered out but has a column", None, cols))
-        other = [c for c in other if not any(c.endswith(safe_core(f"{sid}_qartod_{t}")) for (sid, t) in collected)]
+        other = [c for c in other if not any(c.endswith(safe_core(f"{sid}_{MODULE[t]}_{t}")) for (sid, t) in collected)]
         if sv["write_axes"]:
             if sorted(axis_cols) != ["lat", "lon", "time", "z"]:
                 vs.append(V(f"{PROP}|save|symptom=axis-columns-missing", f"write_axes=True but axis columns are {axis_cols}", ["time", "z", "lat", "lon"], axis_cols))
@@ -173,7 +177,9 @@ def check_case(case):
         elif axis_cols:
             vs.append(V(f"{PROP}|save|symptom=axis-columns-unrequested", f"write_axes=False but frame has {axis_cols}", [], axis_cols))
         exp_data_streams = sorted({sid for (sid, _t) in exp_results}) if sv["write_data"] else []
-        if len(other) != len(exp_data_streams):
+        all_streams = sorted({sid for (sid, _t) in collected})
+        # every stream with a passing result needs its data column; columns for the run's other streams are tolerated
+        if (not sv["write_data"] and other) or len(other) < len(exp_data_streams) or len(other) > len(all_streams):
             vs.append(V(f"{PROP}|save|{fsig}|write_data={sv['write_data']}|symptom=data-columns", f"data columns {other}, expected one per stream {exp_data_streams}", exp_data_streams, other))
         elif sv["write_data"]:
             for sid in exp_data_streams:
@@ -237,7 +243,7 @@ def tasks(tier):
     n = 4 if tier == "quick" else 5
     sets = [[s] for s in IDS] + [list(p) for p in itertools.combinations(IDS, 2)]
     for ss in sets:
-        for tests in (["gross_range_test"], ["spike_test"], ["gross_range_test", "spike_test"]):
+        for tests in (["gross_range_test"], ["spike_test"], ["gross_range_test", "spike_test"], ["valid_range_test", "gross_range_test"]):
             ts.append(("store", n, ss, tests))
     ts.append(("names", 3 if tier == "quick" else 4))
     return ts
